@@ -127,9 +127,11 @@ type c04Space struct {
 func runC04(c *explore.Ctx) {
 	var spaces []c04Space
 	if c.Thorough() {
-		spaces = []c04Space{{crashSpace{"T", "BIGC", 3}, 3, 1}, {crashSpace{"T3", "BIGC", 3}, 3, 1}, {crashSpace{"S2", "ROLL", 3}, 2, 1}, {crashSpace{"E", "ROLL1", 3}, 2, 1}, {crashSpace{"CH", "ROLL", 2}, 2, 0}}
+		spaces = []c04Space{{crashSpace{"T", "BIGC", 3}, 3, 1}, {crashSpace{"T3", "BIGC", 3}, 3, 1}, {crashSpace{"S2", "ROLL", 3}, 2, 1}, {crashSpace{"E", "ROLL1", 3}, 2, 1}, {crashSpace{"CH", "ROLL", 2}, 2, 0}, {crashSpace{"S2", "ROLL", 1}, 4, 0}, {crashSpace{"S3", "ROLL", 1}, 3, 0}}
 	} else {
-		spaces = []c04Space{{crashSpace{"T", "BIGC", 2}, 2, 0}, {crashSpace{"T3", "BIGC", 2}, 2, 0}, {crashSpace{"S2", "ROLL", 2}, 2, 0}, {crashSpace{"E", "ROLL1", 2}, 1, 0}}
+		spaces = []c04Space{{crashSpace{"T", "BIGC", 2}, 2, 0}, {crashSpace{"T3", "BIGC", 2}, 2, 0}, {crashSpace{"S2", "ROLL", 2}, 2, 0}, {crashSpace{"E", "ROLL1", 2}, 1, 0},
+			// few first-epoch images, longer second epochs: a recovered session, a clean restart, more writes, then the crash
+			{crashSpace{"S2", "ROLL", 1}, 3, 0}}
 	}
 	for _, sp := range spaces {
 		if c.Expired() || c.NViolations() > 0 {
